@@ -31,6 +31,7 @@ class Contract:
     strict_progress: bool = False                       # rule-like method: success => index strictly increases (has an ensures saying so)
     product: dict = field(default_factory=dict)          # relational (2-run) obligation: {"on": "self._verbose", "observe": [...]}
     rulefn_preserves: list = field(default_factory=list)  # ASSUMED of every uninterpreted rule-like call made by this function
+    generator: bool = False                             # generator function: ensures may mention `yielded` (tokens yielded by this call)
     floor: int = 1                                      # vacuity guard: minimum number of obligations expected
 
 
